@@ -334,6 +334,7 @@ type c04Run struct {
 	doDone          chan struct{}
 	doWall          time.Duration
 	strict          *bool
+	wakeAfterCancel bool // steered runs: the cancel watch was let past its wake point after the caller's context had ended
 }
 
 var errC04Callback = errors.New("c04: callback failed")
@@ -563,6 +564,11 @@ func (r *c04Run) runPlan(plan []*c04Sx) string {
 			if a == nil {
 				return fmt.Sprintf("no arrival of kind %s (pending: %v)", kind, r.ctl.pendingKinds())
 			}
+			if kind == "hwake" {
+				r.conn.mu.Lock()
+				r.wakeAfterCancel = r.conn.cancelled
+				r.conn.mu.Unlock()
+			}
 			rep := c04Reply{n: -1}
 			switch {
 			case act.atom == "cl":
@@ -631,6 +637,7 @@ type c04Obs struct {
 	doRejected           bool // that Do returned ErrClosed
 	leaked               int
 	afterCancel          string // tokens written after the caller's cancellation
+	mustCancel           bool   // the cancel watch woke after the caller's context had ended and the server sent no exception
 }
 
 // c04ParseOut decodes the client's byte stream with the library's own decoders; true iff it is a
@@ -685,6 +692,12 @@ func c04Boundary(ws []c04Write, comp bool) bool {
 func (r *c04Run) observe() c04Obs {
 	var o c04Obs
 	err := r.doErr
+	o.mustCancel = r.wakeAfterCancel
+	for _, p := range r.sc.script {
+		if p.kind == "exc" || p.cb == "errx" {
+			o.mustCancel = false
+		}
+	}
 	o.failed = err != nil
 	o.isCtx = err != nil && (errors.Is(err, context.Canceled) || errors.Is(err, context.DeadlineExceeded))
 	o.isExc = err != nil && ch.IsException(err)
@@ -829,6 +842,11 @@ func (o c04Obs) oracleC04(sc *c04Scen) string {
 func (o c04Obs) oracleC10() string {
 	var bad []string
 	if !o.failed {
+		if o.mustCancel {
+			// the receiver had returned and the watch looked at the context AFTER the caller had ended it (the plan's
+			// order), no server exception in the scenario: the cancellation was seen, it has to be acted on
+			return "FAIL:C10 the caller's context ended before the cancel watch looked at it and the server sent no exception, yet Do returned nil"
+		}
 		return "ok" // the query had already completed when the context ended
 	}
 	if !o.isCtx {
@@ -887,9 +905,24 @@ func c04Gated(scx *c04Sx, plan []*c04Sx) (obs string, oracle string, o c04Obs) {
 		if r.doDone == nil {
 			return "infeasible " + why, "-", o
 		}
+		// a plan without a cancellation step is a complete schedule of a query that ENDS (the model's Do returns under it,
+		// whatever the interleaving: script and faults are the scenario's): the call has to return by itself, the read
+		// timeout being finite.  It is given a hundred read timeouts before the caller gives up.
+		selfReturn := c04CallerDeadline
+		planCancels := false
+		for _, it := range plan {
+			if it.isL && len(it.list) > 0 && it.list[0].atom == "env" {
+				planCancels = true
+			}
+		}
+		if !planCancels {
+			selfReturn = 100 * c04ReadTimeout
+		}
+		gaveUp := false
 		select {
 		case <-r.doDone:
-		case <-time.After(c04CallerDeadline):
+		case <-time.After(selfReturn):
+			gaveUp = true
 			r.cancel()
 			select {
 			case <-r.doDone:
@@ -897,6 +930,12 @@ func c04Gated(scx *c04Sx, plan []*c04Sx) (obs string, oracle string, o c04Obs) {
 				_ = r.conn.Close()
 				return "infeasible " + strings.ReplaceAll(why, "\t", " "), "FAIL:Do did not return after the caller cancelled (run continued without gates)", o
 			}
+		}
+		if gaveUp && !planCancels {
+			o = r.observe()
+			r.cancel()
+			return "infeasible " + strings.ReplaceAll(why, "\t", " "),
+				fmt.Sprintf("FAIL:the query ends (the scenario's fault or final packet is reached on every interleaving) but Do did not return by itself within %v (read timeout %v): it returned only after the caller gave up", selfReturn, c04ReadTimeout), o
 		}
 		o = r.observe()
 		o.leaked = c04Leaked()
